@@ -83,6 +83,18 @@ def t_stdin_ReadAll(rep, ints):
     return "builtins/pipes/streams", "streams", "", body
 
 
+def t_expLogical(rep, ints):
+    chk = lambda want: 'func(so, se string, ex int) string { if strings.TrimSpace(so) != "%s" { return "expected %s" }; return "" }' % (want, want)
+    return script_test("lang/expressions", "expressions_test", [
+        ('out (false && true)', chk("false")),
+        ('out (0 || 0)', chk("false")),
+        ('out ("no" || false)', chk("false")),
+        ('out (true && true)', chk("true")),
+    ])
+
+
 def install(T, g):
+    T["lang/expressions.expLogicalAnd"] = t_expLogical
+    T["lang/expressions.expLogicalOr"] = t_expLogical
     T["builtins/pipes/streams.(*Stdin).ReadAll"] = t_stdin_ReadAll
     T["builtins/core/management.cmdArgs"] = t_cmdArgs
